@@ -971,6 +971,8 @@ class AtLeast(puan.Proposition):
             ),
             'value': self.value
         }
+        if self.sign != (puan.Sign.POSITIVE if self.value > 0 else puan.Sign.NEGATIVE):
+            d['sign'] = int(self.sign)
         if not self.generated_id:
             d['id'] = self.id
 
@@ -1028,7 +1030,8 @@ class AtLeast(puan.Proposition):
         return AtLeast(
             value=data.get('value', 1),
             propositions=list(map(functools.partial(from_json, class_map=class_map), propositions)),
-            variable=data.get('id', None)
+            variable=data.get('id', None),
+            sign=data.get('sign', None),
         )
 
     @staticmethod
@@ -1476,6 +1479,7 @@ class AtMost(AtLeast):
                 out : Dict[str, Any]
         """
         d = super().to_json()
+        d.pop('sign', None)
         d['value'] = -1*self.value
         return d
 
